@@ -252,8 +252,10 @@ class C06(Prop):
             cands = [i for i in range(0, j + 2) if i < len(bounds) and bounds[i] == reopened]
             op = out["resolved"][j] if j >= 0 else None
             if not cands:
-                if op is not None and op[0] == "bulk":
-                    return None  # a bulk insert may be split at its upserts; judged by the correspondence
+                if any(o[0] == "bulk" and any(e[0] is not None for e in o[2]) for o in out["resolved"][: max(j, 0) + 1]):
+                    # the last commit may have happened inside an earlier (or this) bulk insert with upserts, which
+                    # commits conditionally after each upsert: such a state is compared exactly with the model
+                    return None
                 return f"crash inside op {j}: reopened database is not the state after any prefix of the operations"
             i = cands[-1]
             lost = sum(commitlib.n_writes(o) for o in out["resolved"][i:max(j, 0)])
